@@ -498,9 +498,12 @@ def run(ctx: Ctx, rs: RuleSet, tier: str):
   def partial_atoms(exact, has_args):
     def ev(t):
       if isinstance(t, ast.Compare) and len(t.ops) == 1 and isinstance(
-          t.ops[0], ast.Is) and unparse(t.left) == f'type({vp2})' and unparse(
-              t.comparators[0]).split('.')[-1] == 'Partial':
-        return exact
+          t.ops[0], (ast.Is, ast.IsNot)) and unparse(
+              t.left) == f'type({vp2})' and unparse(
+                  t.comparators[0]).split('.')[-1] == 'Partial':
+        if isinstance(t.ops[0], ast.Is) or exact is None:
+          return exact
+        return not exact
       if isinstance(t, ast.Call) and unparse(t.func).split('.')[-1] == (
           'ordered_arguments') and [unparse(a_) for a_ in t.args] == [vp2]:
         ie = kwarg(t, 'include_equal_to_default')
